@@ -1,5 +1,6 @@
 import BtcwVerif.Lemmas.AddrRows
 import BtcwVerif.Model.AddrTx
+import BtcwVerif.Lemmas.AddrWallet
 /-!
 # C04 — no secret reaches the database file unencrypted
 
@@ -295,5 +296,60 @@ example : ((wrun Cfg.fixed demoHD04 [.mgr (.create [0]), .mgr (.next (84, 0) 0 1
 
 /-- the write stream of a history is not empty (the theorems above are not about an empty list) -/
 example : 20 < (run {} demoHD04 demo04ImportScript).2.length := by decide
+
+-- ---------------------------------------------------------------------------------------------------------
+-- round 2: the wallet-level entry point of the conversion, `Wallet.InitAccounts(scope, watchOnly, num)`
+
+/-- `InitAccounts(watchOnly = true)` from any state of a non-watching-only manager: if the call reports success, then
+    after a reopen nothing unlocks, no private accessor answers, the database holds nothing private, and the stored
+    address ids are those of before the call — see `watch_only_cfg`.  Whether accounts `1 … num` had to be created or
+    were all there already (a wallet started earlier with `watchOnly = false`) makes no difference. -/
+theorem init_accounts_watch_only_cfg (cfg : Cfg) (hd : HD K P) (s : State K P) (sc : Scope) (num : Nat)
+    (hw : s.mem.watchOnly = false) (ht : cfg.t1 = false)
+    (hok : (opInitAccounts cfg hd s sc true num).2.1 = .ok) :
+    let s2 := (opRestart (K := K) (opInitAccounts cfg hd s sc true num).1).1
+    (∀ p, (opUnlock cfg hd s2 p).2.1 = .err .watchOnly) ∧
+    (∀ o : KeyObj K P, privKeyOf s2 o = .error .watchOnly) ∧
+    (∀ o : ScrObj, (o.kind = 0 ∨ o.secret = true) → scriptOf cfg s2 o = .error .watchOnly) ∧
+    s2.mem.watchOnly = true ∧ s2.disk.watchOnly = true ∧ s2.disk.rootPriv = none ∧ s2.disk.privPass = none ∧
+    (∀ e ∈ s2.disk.scopes, ScopePrivless e.2) ∧
+    addrIds s2 = addrIds s := by
+  obtain ⟨sMid, hm1, hm2, hm3⟩ := opInitAccounts_converts cfg hd s sc num hok
+  intro s2
+  have hs2 : s2 = (opRestart (K := K) (opConvertWO cfg sMid).1).1 := by show (opRestart _).1 = _; rw [hm3]
+  obtain ⟨h1, h2, h3, h4, h5, h6, h7, h8⟩ := watch_only_cfg cfg hd sMid (hm1.trans hw) ht
+  rw [hs2]
+  refine ⟨h1, h2, h3, ?_, h4, h5, h6, h7, ?_⟩
+  · simp [opRestart, opConvertWO, hm1.trans hw, freshMem]
+  · exact h8.trans hm2
+
+/-- **Watching-only migration through the wallet** (official tree, after ANY history — in particular one in which an
+    earlier start already ran `InitAccounts(scope, false, num)` and created every account): a successful
+    `InitAccounts(scope, true, num)` followed by a reopen leaves a wallet that still knows every address, that no
+    passphrase unlocks, and from which no call returns private material; the database holds no private key, secret
+    script or private KDF parameter. -/
+theorem C04_init_accounts_watch_only (hd : HD K P) (ops : List (Op K P)) (sc : Scope) (num : Nat)
+    (hw : (run Cfg.fixed hd ops).1.mem.watchOnly = false)
+    (hok : (opInitAccounts Cfg.fixed hd (run Cfg.fixed hd ops).1 sc true num).2.1 = .ok) :
+    let s := (run Cfg.fixed hd ops).1
+    let s2 := (opRestart (K := K) (opInitAccounts Cfg.fixed hd s sc true num).1).1
+    (∀ p, (opUnlock Cfg.fixed hd s2 p).2.1 = .err .watchOnly) ∧
+    (∀ o : KeyObj K P, privKeyOf s2 o = .error .watchOnly) ∧
+    (∀ o : ScrObj, (o.kind = 0 ∨ o.secret = true) → scriptOf Cfg.fixed s2 o = .error .watchOnly) ∧
+    s2.mem.watchOnly = true ∧ s2.disk.watchOnly = true ∧ s2.disk.rootPriv = none ∧ s2.disk.privPass = none ∧
+    (∀ e ∈ s2.disk.scopes, ScopePrivless e.2) ∧
+    addrIds s2 = addrIds s :=
+  init_accounts_watch_only_cfg Cfg.fixed hd _ sc num hw rfl hok
+
+/-- non-vacuity: first start `InitAccounts(false, 2)` creates accounts 1 and 2; on the second start nothing is missing
+    (the walk creates nothing) and `InitAccounts(true, 2)` still succeeds — and converts -/
+def demo04Started : List (Op (List Nat) (List Nat)) := [.create [0], .unlock 0]
+
+example :
+    let s1 := (opRestart (opInitAccounts Cfg.fixed demoHD04 (run Cfg.fixed demoHD04 demo04Started).1 (84, 0) false 2).1).1
+    let s1u := (step Cfg.fixed demoHD04 s1 (.unlock 0)).1
+    (s1u.mem.watchOnly, missingAccts s1u (84, 0) 2 1,
+      match (opInitAccounts Cfg.fixed demoHD04 s1u (84, 0) true 2).2.1 with | .ok => true | _ => false,
+      (opInitAccounts Cfg.fixed demoHD04 s1u (84, 0) true 2).1.disk.watchOnly) = (false, [], true, true) := by decide
 
 end AddrDerive
